@@ -539,7 +539,8 @@ fn stack_block(cap: u8, allow_underflow: bool) -> BS<Step> {
     )
         .prop_map(move |(push, inner, pops, legacy, underflow)| {
             let depth = push.len();
-            let mut mask = 0u8;
+            // applied in the inverse direction the block pops into the pushed dimensions
+            let mut mask = push.iter().fold(0u8, |m, d| m | (1 << (d - 1)));
             let list = |l: &[u8]| l.iter().map(|i| i.to_string()).collect::<Vec<_>>().join(",");
             let mut steps: Vec<String> = vec![];
             let distinct: BTreeSet<u8> = push.iter().cloned().collect();
